@@ -22,6 +22,10 @@ type c11Case struct {
 	File  string `json:"file"` // the test file that declares it
 	Steps []Step `json:"steps"`
 	AbsID int    `json:"abs_dir_id"`
+	// a second test function, declared in ANOTHER test file of the same package, run in the same process
+	Test2  string `json:"test2,omitempty"`
+	File2  string `json:"file2,omitempty"`
+	Steps2 []Step `json:"steps2,omitempty"`
 }
 
 var c11Tests = []struct{ pkg, file, test string }{
@@ -53,6 +57,8 @@ func genC11Cfg(t *rapid.T) Cfg {
 	}
 	c := Cfg{}
 	switch rapid.IntRange(0, 5).Draw(t, "dir") {
+	case 0:
+		// unset
 	case 1:
 		c.Dir = strp("snapdir")
 	case 2:
@@ -62,7 +68,7 @@ func genC11Cfg(t *rapid.T) Cfg {
 	case 4:
 		c.Dir = strp(absMarker)
 	case 5:
-		c.Dir = strp("./dotted/../dotted")
+		c.Dir = strp(rapid.SampledFrom([]string{"./dotted/../dotted", "50%_done/snaps", "My%20Project"}).Draw(t, "oddDir"))
 	}
 	c.Filename = rapid.SampledFrom([]string{"", "", "custom", "my.file", "with%percent", "ünï", "%d", "a b"}).Draw(t, "filename")
 	c.Ext = rapid.SampledFrom([]string{"", "", ".txt", ".json", ".snap", ".%s"}).Draw(t, "ext")
@@ -104,7 +110,24 @@ func genC11StepsAt(t *rapid.T, depth int, top bool) []Step {
 
 func genC11(t *rapid.T) c11Case {
 	tt := rapid.SampledFrom(c11Tests).Draw(t, "test")
-	return c11Case{Pkg: tt.pkg, Test: tt.test, File: tt.file, Steps: genC11Steps(t, 2), AbsID: rapid.IntRange(0, 1).Draw(t, "absid")}
+	c := c11Case{Pkg: tt.pkg, Test: tt.test, File: tt.file, Steps: genC11Steps(t, 2), AbsID: rapid.IntRange(0, 1).Draw(t, "absid")}
+	if rapid.IntRange(0, 2).Draw(t, "second") == 0 {
+		var others []struct{ pkg, file, test string }
+		for _, o := range c11Tests {
+			if o.pkg == tt.pkg && o.file != tt.file {
+				others = append(others, o)
+			}
+		}
+		if len(others) > 0 {
+			o := rapid.SampledFrom(others).Draw(t, "test2")
+			c.Test2, c.File2 = o.test, o.file
+			// only multi-entry calls and default-named standalone calls: fixed Filenames of standalone snapshots belong to one test
+			for _, st := range genC11StepsAt(t, 1, false) {
+				c.Steps2 = append(c.Steps2, st)
+			}
+		}
+	}
+	return c
 }
 
 // expectedFiles: the statement's formula applied to every call (paths relative to the shard root = parent of the module).
@@ -158,6 +181,10 @@ func expectedC11(c c11Case, absDir string) (files map[string][]string) {
 		}
 	}
 	walk(c.Test, c.Steps)
+	if c.Test2 != "" {
+		base = strings.TrimSuffix(c.File2, ".go")
+		walk(c.Test2, c.Steps2)
+	}
 	return files
 }
 
@@ -207,6 +234,9 @@ func checkC11(c c11Case) error {
 	abs := filepath.Join(shardRoot(), fmt.Sprintf("abs%d", c.AbsID))
 	want := expectedC11(c, abs)
 	scn := Scenario{Tests: map[string]*Node{c.Test: {Steps: substituteAbs(c.Steps, abs)}}}
+	if c.Test2 != "" {
+		scn.Tests[c.Test2] = &Node{Steps: substituteAbs(c.Steps2, abs)}
+	}
 	foreign := filepath.Join(shardRoot(), "foreign")
 	os.MkdirAll(foreign, 0o755)
 	variants := []struct {
@@ -323,6 +353,10 @@ func classifyC11(c c11Case) ([]string, bool) {
 		}
 	}
 	walk(c.Steps, 0)
+	if c.Test2 != "" {
+		cls = append(cls, "two_test_files_in_one_process")
+		walk(c.Steps2, 0)
+	}
 	cls = append(cls, "trimpath_and_foreign_cwd_variants")
 	return uniqStrings(cls), true || nt
 }
